@@ -239,10 +239,13 @@ var $setTimeout = (f, t) => {
     }, t);
 };
 
-var $block = () => {
+var $checkCanBlock = () => {
     if ($curGoroutine === $noGoroutine) {
         $throwRuntimeError("cannot block in JavaScript callback, fix by wrapping code in goroutine");
     }
+};
+var $block = () => {
+    $checkCanBlock();
     $curGoroutine.asleep = true;
 };
 
@@ -267,6 +270,7 @@ var $send = (chan, value) => {
         return;
     }
 
+    $checkCanBlock(); /* before anything is queued: a failed send must leave no trace */
     var thisGoroutine = $curGoroutine;
     var closedDuringSend;
     chan.$sendQueue.push(closed => {
@@ -296,6 +300,7 @@ var $recv = chan => {
         return [chan.$elem.zero(), false];
     }
 
+    $checkCanBlock(); /* before anything is queued */
     var thisGoroutine = $curGoroutine;
     var f = { $blk() { return this.value; } };
     var queueEntry = v => {
@@ -371,6 +376,7 @@ var $select = comms => {
         }
     }
 
+    $checkCanBlock(); /* before anything is queued */
     var entries = [];
     var thisGoroutine = $curGoroutine;
     var f = { $blk() { return this.selection; } };
